@@ -826,15 +826,15 @@ def rule_h(ctx):
 
 def run(ctx):
     from .common import rule_abs_tolerance
-    rule_abs_tolerance(ctx, "C04.i", [f for mn_ in (WAS, "darsia.utils.linalg") for k in ctx.model.mod(mn_).classes.values() for f in k.methods.values()], "mass balance and reported cost must hold for masses of any magnitude")
-    rule_a(ctx)
-    rule_b(ctx)
-    rule_f(ctx)
-    rule_g(ctx)
-    rule_c(ctx)
-    rule_d(ctx)
-    rule_e(ctx)
-    rule_h(ctx)
+    ctx.guard(rule_abs_tolerance, ctx, "C04.i", [f for mn_ in (WAS, "darsia.utils.linalg") for k in ctx.model.mod(mn_).classes.values() for f in k.methods.values()], "mass balance and reported cost must hold for masses of any magnitude")
+    ctx.guard(rule_a, ctx)
+    ctx.guard(rule_b, ctx)
+    ctx.guard(rule_f, ctx)
+    ctx.guard(rule_g, ctx)
+    ctx.guard(rule_c, ctx)
+    ctx.guard(rule_d, ctx)
+    ctx.guard(rule_e, ctx)
+    ctx.guard(rule_h, ctx)
     # the distance is the cost of the *cell* flux reconstructed from the face flux by face_to_cell (C06.c)
     from . import c06
     from .common import shared
